@@ -70,6 +70,13 @@ def build_pool(ctx, rng):
                 files.append(("compiled:%d.%d:%s" % (v[0], v[1], name), o["pyc"], ".pyc"))
     for o in oracles.values():
         o.close()
+    # files the loader refuses (interim-release magics, an unknown magic, a truncated file): a refusal is a result too,
+    # and must not turn into an acceptance (or the reverse) because of what was loaded before
+    base = next((hx for name, hx, _ in files if name.startswith("compiled:3.8:")), None)
+    if base:
+        for m in (3330, 3250, 3391, 3401, 3000, 20000, 62061 + 3):
+            files.append(("relabelled:%d" % m, "%02x%02x" % (m & 255, m >> 8) + base[4:], ".pyc"))
+        files.append(("truncated:40", base[:80], ".pyc"))
     ops = []
     for name, hx, suffix in files:
         ops.append(("load_pyc", {"pyc": hx, "suffix": suffix}))
